@@ -9,6 +9,8 @@ ops (JSON lists):
   ['rep', k, name]              replace_child(live[k % len(live)], new(name))
   ['repf', k, name]             replace_child(lambda c: c is live[k], new(name))      (predicate form)
   ['repi', k, name]             replace_child(lambda c: c.name == live[k].name, new(name), index=position of live[k] among them)
+  ['repa', k, name]             replace_child(lambda c: True, new(name), index=position of live[k] in the ordered view)
+  ['chk', flag]                 e.xsd_check = flag      (the public setter, in the middle of a history)
   ['set', name, 'el'|'val'|'none']   e.xml_<name> = element / value / None
   ['str', ic]                   to_string(intelligent_choice=ic)
 """
@@ -104,7 +106,9 @@ def replay(cls, t, hist, props=(), labels=None):
             else:
                 target = live[op[1] % len(live)]
                 res = lib.call(e.replace_child, target, target)
-        elif kind in ('rep', 'repf', 'repi'):
+        elif kind == 'chk':
+            res = lib.call(setattr, e, 'xsd_check', bool(op[1]))
+        elif kind in ('rep', 'repf', 'repi', 'repa'):
             if not live:
                 skip = True
             else:
@@ -112,6 +116,10 @@ def replay(cls, t, hist, props=(), labels=None):
                 newkid = new_child(op[2])
                 if kind == 'rep':
                     res = lib.call(e.replace_child, target, newkid)
+                elif kind == 'repa':
+                    allk = e.get_children(True)
+                    pos = next((j for j, c in enumerate(allk) if c is target), 0)
+                    res = lib.call(e.replace_child, (lambda c: True), newkid, pos)
                 elif kind == 'repi':
                     same = [c for c in e.get_children(True) if c.name == target.name]
                     pos = next((j for j, c in enumerate(same) if c is target), 0)
@@ -154,7 +162,7 @@ def replay(cls, t, hist, props=(), labels=None):
             elif kind == 'rmgone':
                 if want06:
                     r.viol.append(('C06', 'stale-remove-accepted', i, {'child': target.name}))
-            elif kind in ('rep', 'repf', 'repi'):
+            elif kind in ('rep', 'repf', 'repi', 'repa'):
                 live[live.index(target)] = newkid; r.gone.append(target); r.labels_of[id(newkid)] = label
             elif kind == 'set':
                 if op[2] == 'el':
@@ -229,7 +237,7 @@ def replay(cls, t, hist, props=(), labels=None):
                         r.viol.append(('C16', 'unparsable', i, {'err': str(err)}))
                     tags = None
                 if tags is not None:
-                    if 'C01' in props and not d.accepts(tags):
+                    if 'C01' in props and e.xsd_check and not d.accepts(tags):
                         r.viol.append(('C01', 'invalid-word', i, {'word': tags}))
                     if want06 and collections.Counter(tags) != collections.Counter(c.name for c in live):
                         r.viol.append(('C06', 'output-count', i, {'output': tags, 'model': [c.name for c in live]}))
@@ -419,7 +427,7 @@ def twin_c11(cls, t, hist, r=None):
 def mech_class(t, hist, status):
     """mechanism class of a (minimal) witness, by precedence (DESIGN 6.2)"""
     for op, s in zip(hist, status):
-        if op[0] in ('rep', 'repf', 'repi') and s == 'ok':
+        if op[0] in ('rep', 'repf', 'repi', 'repa') and s == 'ok':
             return 'replace'
     if any(s not in ('ok', 'skip') for s in status):
         return 'failed-op'
@@ -451,8 +459,10 @@ def case_string(hist):
             out.append('rmgone:%d' % op[1])
         elif op[0] == 'repself':
             out.append('repself:%d' % op[1])
-        elif op[0] in ('rep', 'repf', 'repi'):
+        elif op[0] in ('rep', 'repf', 'repi', 'repa'):
             out.append('%s:%d>%s' % (op[0], op[1], op[2]))
+        elif op[0] == 'chk':
+            out.append('chk:%d' % (1 if op[1] else 0))
         elif op[0] == 'set':
             out.append('set:%s=%s' % (op[1], op[2]))
         elif op[0] == 'str':
